@@ -8,6 +8,7 @@
 pub mod args;
 pub mod callengine;
 pub mod frame;
+pub mod fuzz;
 pub mod json;
 pub mod panics;
 pub mod procmon;
